@@ -134,7 +134,8 @@ fn damage(b: &mut Vec<u8>, rng: &mut Rng) -> &'static str {
         }
         10 => {
             // prolog / DOCTYPE / PI / comment noise, possibly broken
-            let noise: [&[u8]; 8] = [b"<?xml version=\"1.0\"?>", b"<!DOCTYPE a [<!ENTITY e \"v\">]>", b"<!-- c -->", b"<?pi", b"<!--", b"<!DOCTYPE", b"<![CDATA[", b"<!>"];
+            let noise: [&[u8]; 11] = [b"<?xml version=\"1.0\"?>", b"<!DOCTYPE a [<!ENTITY e \"v\">]>", b"<!-- c -->", b"<?pi", b"<!--", b"<!DOCTYPE", b"<![CDATA[", b"<!>",
+                b"<!DOCTYPE a [<!ENTITY x SYSTEM \"x.xml\"><!ENTITY % p PUBLIC \"-//P//EN\" \"p.ent\">]>", b"<!DOCTYPE a SYSTEM \"a.dtd\" [<!ATTLIST a x CDATA #IMPLIED>]>", b"<?xml encoding=\"UTF-8\"?>"];
             let at = if rng.chance(1, 2) { 0 } else { rng.below(b.len() + 1) };
             splice(b, at, 0, noise[rng.below(noise.len())]);
             "markup-noise"
@@ -347,6 +348,25 @@ pub fn run(ctx: &mut Ctx, c07: bool) {
                 cases.push((vec![d.as_bytes().to_vec(), d.as_bytes()[..i].to_vec()], "truncated-extension".into()));
             }
         }
+    }
+    // a dozen spellings of one name, as children and as attributes (everything that numbers
+    // colliding identifiers runs past a single digit here)
+    {
+        let mut sp: Vec<String> = vec![];
+        for sep in ["_", "-", "."] {
+            for (a, b) in [("unit", "price"), ("Unit", "Price"), ("UNIT", "PRICE")] {
+                sp.push(format!("{}{}{}", a, sep, b));
+            }
+        }
+        for x in ["unitPrice", "UnitPrice", "unit_Price", "unit__price", "unit:price"] {
+            sp.push(x.to_string());
+        }
+        let kids: String = sp.iter().map(|n| format!("<{} k=\"1\"/>", n)).collect();
+        let leafs: String = sp.iter().map(|n| format!("<{}>t</{}>", n, n)).collect();
+        let attrs: String = sp.iter().filter(|n| !n.contains(':')).map(|n| format!(" {}=\"1\"", n)).collect();
+        cases.push((vec![format!("<orders>{}</orders>", kids).into_bytes()], "many-spellings-of-one-name".into()));
+        cases.push((vec![format!("<orders>{}</orders>", leafs).into_bytes()], "many-spellings-of-one-name".into()));
+        cases.push((vec![format!("<orders{}/>", attrs).into_bytes(), format!("<orders{}>{}</orders>", attrs, kids).into_bytes()], "many-spellings-of-one-name".into()));
     }
     // every sequence of markup tokens up to a length, well-formed or not: all interleavings of
     // open / close / empty / text / faults that fit, alone and as an extension of a parsed root
